@@ -62,7 +62,7 @@ void pbt_run(const Case& cs, Ctx& ctx) {
   int kind = (int)(((cs.param("kind", 0) % NKIND) + NKIND) % NKIND), nt = (int)std::max(2L, std::min<long>(MAXT, cs.param("threads", 2)));
   long nsched = ctx.replay ? 60 : std::max(1L, std::min(64L, cs.param("nsched", 8)));
   long share = cs.param("share", 0);
-  static const char* KN[] = {"kind_String", "kind_Variant_string", "kind_Variant_list", "kind_RefCountPtr", "kind_XmlVariant", "kind_RefCountPtr_converting"};
+  static const char* KN[] = {"kind_String", "kind_Variant_string", "kind_Variant_list", "kind_RefCountPtr", "kind_XmlVariant", "kind_RefCountPtr_converting", "kind_Variant_map", "kind_Variant_array"};
   ctx.label(KN[kind]);
   if (isPtrKind(kind) && ctx.excluded("C09-ptr-swap")) {}
   std::vector<Prog> progs((size_t)nt);
